@@ -84,21 +84,25 @@ def check_case(case, acc):
         df, spec = build(case)
         labels = genuine(df, case["enc"])
         path = work / ("in.pin" if case["fmt"] == "pin" else "in.parquet")
+        train_fdr, FDR = FDRS[case.get("fdr", "eq")]
         if case.get("history"):
             # an earlier analysis of ANOTHER export under the same path (same rows, decoy flags mostly lost): whatever
             # mokapot remembers about that file must not leak into this analysis
             prev = df.copy()
             tgt = True if case["enc"] == "bool" else 1
-            keep = [i for i in range(len(prev)) if not labels[i]][::2]  # every second decoy keeps its flag
+            # every fourth decoy keeps its flag: enough for training to run, few enough that all-tied scores would
+            # "accept" every target of that export at the evaluation FDR
+            keep = [i for i in range(len(prev)) if not labels[i]][::4]
             prev["Label"] = [prev["Label"].iloc[i] if (labels[i] or i in keep) else tgt for i in range(len(prev))]
             try:
                 ds0 = make_dataset(prev, path, features=["f_key", "f2"], spectrum=spec)
-                mokapot.brew([ds0], model=make_model(case["est"], first_only=True, override=case["override"], train_fdr=FDR),
+                # (a learner without decision function: no per-fold calibration that could stop this earlier analysis)
+                mokapot.brew([ds0], model=make_model("proba", first_only=True, override=True, train_fdr=FDR),
                              test_fdr=FDR, folds=3, max_workers=1, rng=1)
-            except Exception:
-                pass
+                acc.count("history_prior_analyses_completed")
+            except (RuntimeError, ValueError):
+                acc.count("history_prior_analyses_refused")
         ds = make_dataset(df, path, features=["f_key", "f2"], spectrum=spec)
-        train_fdr, FDR = FDRS[case.get("fdr", "eq")]
         model = make_model(case["est"], first_only=True, override=case["override"], train_fdr=train_fdr)
         try:
             psms, models, scores, descs = mokapot.brew([ds], model=model, test_fdr=FDR, folds=3, max_workers=1, rng=1)
